@@ -10,6 +10,6 @@ rm -rf .venv
 /venv/bin/python -m venv .venv
 SP=$(.venv/bin/python -c 'import site; print(site.getsitepackages()[0])')
 printf '%s\n%s\n' "/venv/lib/python3.12/site-packages" "/repo" > "$SP/verif_overlay.pth"
-PIP_NO_INDEX=1 .venv/bin/pip install -q --no-index --find-links /opt/veriftools/wheels z3-solver cvc5 >/dev/null
+PIP_NO_INDEX=1 .venv/bin/pip install -q --no-index --find-links /opt/veriftools/wheels z3-solver cvc5 jsonschema >/dev/null
 PIP_NO_INDEX=1 .venv/bin/pip install -q --no-index --find-links /opt/veriftools/wheels crosshair-tool >/dev/null 2>&1 || echo "note: crosshair-tool not installed (secondary engine only)"
 .venv/bin/python -c 'import z3, mako; print("verif venv ok: z3", z3.get_version_string(), "mako", mako.__version__)'
